@@ -4,6 +4,7 @@
 mod util;
 mod c04;
 mod c05;
+mod c06;
 mod c17;
 mod c18;
 
@@ -24,6 +25,8 @@ fn main() {
         ("search", "C04") => c04::search(seed, n),
         ("corr", "C05") => c05::corr(seed, n),
         ("search", "C05") => c05::search(seed, n),
+        ("corr", "C06") => c06::corr(seed, n),
+        ("search", "C06") => c06::search(seed, n),
         ("corr", "C17") => c17::corr(seed, n),
         ("search", "C17") => c17::search(seed, n),
         ("corr", "C18") => c18::corr(seed, n),
